@@ -391,6 +391,12 @@ func build() (string, *instr.Summary, error) {
 	defer syscall.Flock(int(lock.Fd()), syscall.LOCK_UN)
 
 	h := treeHash()
+	// VERIF_COVER=1 (development aid, tools/coverage.sh): build the workers with
+	// statement coverage of the repository packages; run with GOCOVERDIR set
+	cover := os.Getenv("VERIF_COVER") != ""
+	if cover {
+		h += "-cover"
+	}
 	bdir := filepath.Join(verifDir, ".build", "h-"+h)
 	sumFile := filepath.Join(bdir, "instr_summary.json")
 	if _, err := os.Stat(filepath.Join(bdir, "ok")); err == nil {
@@ -402,7 +408,7 @@ func build() (string, *instr.Summary, error) {
 	// remove older builds
 	ents, _ := ioutil.ReadDir(filepath.Join(verifDir, ".build"))
 	for _, e := range ents {
-		if strings.HasPrefix(e.Name(), "h-") {
+		if strings.HasPrefix(e.Name(), "h-") && strings.HasSuffix(e.Name(), "-cover") == cover {
 			os.RemoveAll(filepath.Join(verifDir, ".build", e.Name()))
 		}
 	}
@@ -426,6 +432,9 @@ func build() (string, *instr.Summary, error) {
 		return "", nil, fmt.Errorf("instrumenter: %v", err)
 	}
 	run := func(args ...string) error {
+		if cover && args[0] == "build" {
+			args = append([]string{"build", "-cover", "-coverpkg=github.com/krotik/ecal/..."}, args[1:]...)
+		}
 		cmd := exec.Command("go", args...)
 		cmd.Dir = mc
 		out, err := cmd.CombinedOutput()
